@@ -10,10 +10,10 @@ from .. import msk
 KINDS = [
     "naive-last", "naive-mean", "naive-drift", "naive-seasonal-last", "naive-seasonal-mean", "poly", "poly-nointercept", "sm-adapter",
     "reduce-direct", "reduce-recursive", "reduce-multioutput", "reduce-dirrec",
-    "ensemble", "ensemble-window-trend", "pipeline", "pipeline-deseason", "stacking", "multiplexer", "gridsearch",
+    "theta", "ensemble", "ensemble-window-trend", "pipeline", "pipeline-deseason", "stacking", "multiplexer", "gridsearch",
 ]
 REQUIRED_FH = ("reduce-direct", "reduce-multioutput", "reduce-dirrec", "stacking")
-SHIFTABLE = ("pipeline-deseason", "poly-nointercept", "naive-last", "naive-mean", "naive-drift", "naive-seasonal-last", "naive-seasonal-mean", "poly", "reduce-direct", "reduce-recursive", "reduce-multioutput", "reduce-dirrec")
+SHIFTABLE = ("theta", "pipeline-deseason", "poly-nointercept", "naive-last", "naive-mean", "naive-drift", "naive-seasonal-last", "naive-seasonal-mean", "poly", "reduce-direct", "reduce-recursive", "reduce-multioutput", "reduce-dirrec")
 
 
 def is_nan(x):
@@ -50,6 +50,17 @@ class C03(Harness):
                 return types.SimpleNamespace(seasonal=W.pd.Series([sig[i % len(sig)] for i in range(len(z))], index=z.index))
 
             return {"statsmodels.tsa.seasonal": types.SimpleNamespace(seasonal_decompose=seasonal_decompose)}
+        if cell["kind"] == "theta" and kind == "sym":
+            holder = self.__dict__.setdefault("_hold", {})
+
+            def _fit_trend(x, order=0):
+                # least-squares line of the values over their positions: uninterpreted slope / intercept of the values
+                W = holder["theta-W"]
+                vals = L(x)[0]
+                sig = "r" * len(vals) + ">r"
+                return W.np.array([[W.uf("ls_slope_%d" % len(vals), vals, sig), W.uf("ls_icpt_%d" % len(vals), vals, sig)]])
+
+            return {"sktime.utils.slope_and_trend": types.SimpleNamespace(_fit_trend=_fit_trend, _slope=None)}
         if cell["kind"] in ("poly", "poly-nointercept", "ensemble-window-trend") and kind == "sym":
             return {
                 "sklearn.linear_model": types.SimpleNamespace(LinearRegression=msk.LinearRegression),
@@ -120,7 +131,7 @@ class C03(Harness):
             return W.load("sktime.forecasting.trend").PolynomialTrendForecaster(degree=1)
         if k == "poly-nointercept":
             return W.load("sktime.forecasting.trend").PolynomialTrendForecaster(degree=1, with_intercept=False)
-        if k == "sm-adapter":
+        if k in ("sm-adapter", "theta"):
             ad = W.load("sktime.forecasting.base.adapters._statsmodels")
             pd = W.pd
 
@@ -141,6 +152,18 @@ class C03(Harness):
                 def _fit_forecaster(self, y_train, X_train=None):
                     self._fitted_forecaster = Res(y_train)
 
+            if k == "theta":
+                # the Theta method around the same results stub: smoothing forecasts by position plus the drift term
+                TF = W.load("sktime.forecasting.theta").ThetaForecaster
+
+                class Theta(TF):
+                    def _fit_forecaster(self, y_train, X_train=None):
+                        self._fitted_forecaster = Res(y_train)
+
+                self.__dict__.setdefault("_hold", {})["theta-W"] = W
+                th = Theta(deseasonalize=False)
+                th.__class__.__name__ = "ThetaForecaster"
+                return th
             return Stub()
         Member = make_member(W, log)
         if k.startswith("reduce"):
@@ -319,6 +342,23 @@ class C03(Harness):
                 P.eq("shift-invariant-values", va, vb)
             for la, lb in zip(out["a"]["index"], out["b"]["index"]):
                 P.eq("shift-invariant-index", lb, la + inp["delta"])
+
+    def comparable(self, out, cell):
+        if cell["kind"] != "theta":
+            return out
+        # the trend coefficient is uninterpreted in the symbolic world and numpy's least squares in the real one:
+        # labels and shapes are compared across the worlds, the numbers are judged by the oracle in each
+        o = {}
+        for tag in ("a", "b"):
+            if tag in out:
+                o[tag] = {k: v for k, v in out[tag].items() if k not in ("values", "singles")}
+                o[tag]["n_values"] = len(out[tag]["values"])
+                if "singles" in out[tag]:
+                    o[tag]["single_labels"] = [sg[0] for sg in out[tag]["singles"]]
+        if "twin" in out:
+            t = out["twin"]
+            o["twin"] = {"d": t["d"], "first_abs": t["first_abs"], "labels": [t[nm][0] for nm in ("p1", "p2", "p3")]}
+        return o
 
     def signature(self, label, inp, cell):
         return "%s/%s" % (cell["kind"], label)
